@@ -31,6 +31,7 @@ CFG = {
         "count / fold / rfold consume self: as steps of a history (C03_step, C03_history) they act on a clone (Clone is derived, identity in the model)",
         "modelled by contract, not verified: slice::Iter / vec::IntoIter (next, next_back, nth, nth_back, as_slice, len), slice::partition_point and binary_search_by_key on sorted input, the std default Iterator::nth / DoubleEndedIterator::nth_back / fold / rfold (repeated next / next_back); the default fold loops are totalised with fuel len()+1 and proved never to stop because of the fuel",
         "'each element once across both ends' is not a separate theorem: it is the cursor specification itself (next pops the head, next_back the last element of one strictly ascending list: C03_history + C03_ascending)",
+        "fidelity audit of the store kernels and 32-bit iterators (notes/fidelity-stores-iter32.md): BitmapIter (new, next with its word scan and early exits, next_back loop, advance_to 5 arms, advance_back_to 6 arms incl. the live-word choice, size_hint, count), store::Iter, container::Iter and bitmap Iter / IntoIter (and_then_or_clear, advance_to_impl / advance_back_to_impl, size_hint_impl, next / next_back loops, nth / nth_back with the captured n, fold / rfold / count, range / into_range) were all found mirrored branch for branch (class M; std adaptors class A); no simplified definition, nothing to switch",
         "thorough-tier exhaustive sweep of DESIGN §8 C03 (all cursor states x targets in a 4-word window) is replaced by the randomised window profile C03W (random (a, b) cursor pair per case, all targets of a 3-word window)",
     ],
     "theorem_samples": [
